@@ -4,6 +4,7 @@ import DelbModel.Generated.Tables
 import DelbModel.Props.C01
 import DelbModel.Props.C01Api
 import DelbModel.Props.C02
+import DelbModel.Props.C02Scan
 import DelbModel.Props.C03
 import DelbModel.Props.C03Wrap
 import DelbModel.Props.C04
